@@ -396,7 +396,8 @@ def uniform(data: ttb.tensor, samples: int) -> sample_type:
         ).astype(int)
         - 1
     )
-    vals = data[subs]
+    # One value per sample as a flat array (a sparse tensor hands back a column)
+    vals = np.asarray(data[subs], dtype=float).reshape((samples,))
     wgts = (np.prod(data.shape) / samples) * np.ones((samples,))
     return subs, vals, wgts
 
